@@ -354,3 +354,126 @@ package snapshot
 //@   assigns **
 //@   assert @os.Create: [flag-set-for-full] t == Full && arg0 == s.fullNeededPath
 //@   assert @os.Remove: [flag-cleared-for-incremental] t == Incremental && arg0 == s.fullNeededPath
+//
+// ---- C07: reaping is planned, persisted, then executed; an interrupted plan is finished first --------
+// reapInternal: an existing plan file is resumed and nothing else is done; otherwise the store is
+// verified before it is scanned, the plan is built in the order checkpoint -> CRC of the
+// checkpointed database -> removal of the consolidated and the older snapshot directories ->
+// new metadata -> (integrity check) -> rename to the new snapshot name, LAST; the complete plan is
+// written to the plan file before its execution starts.
+//@ func (*Store) reapInternal
+//@   requires [recv] s != nil
+//@   assigns **
+//@   ghost var persisted bool = false
+//@   ghost var verifiedOK bool = false
+//@   ghost var step int = 0
+//@   ghost var planV int = 0
+//@   ghost update @s.ensureVerified: verifiedOK = (result == nil)
+//@   assert @s.getSnapshots: [verify-before-scan] verifiedOK
+//@   ghost update @plan.New: planV = result
+//@   assert @p.AddRemoveAll#1: [plain-removal-only-without-wals] step == 0
+//@   assert @p.AddCheckpoint: [checkpoint-first] step == 0
+//@   ghost update @p.AddCheckpoint: step = 1
+//@   assert @p.AddCalcCRC32: [crc-after-checkpoint] step == 1 && arg0 == dbPath
+//@   ghost update @p.AddCalcCRC32: step = 2
+//@   assert @p.AddRemoveAll#2: [remove-only-after-checkpoint-and-crc] step == 2 || step == 3
+//@   ghost update @p.AddRemoveAll#2: step = 3
+//@   assert @p.AddRemoveAll#3: [remove-only-after-checkpoint-and-crc] step == 2 || step == 3
+//@   ghost update @p.AddRemoveAll#3: step = 3
+//@   assert @p.AddWriteMeta: [meta-after-removals] step == 2 || step == 3
+//@   ghost update @p.AddWriteMeta: step = 4
+//@   assert @p.AddVerifyDB: [verify-after-meta] step == 4 && arg0 == dbPath
+//@   ghost update @p.AddVerifyDB: step = 5
+//@   assert @p.AddRename: [rename-is-the-last-operation] (step == 4 || step == 5) && arg0 == full.path
+//@   ghost update @p.AddRename: step = 6
+//@   assert @plan.WriteToFile: [complete-plan-persisted] arg0 == p && p == planV && arg1 == s.reapPlanPath && (step == 0 || step == 6)
+//@   ghost update @plan.WriteToFile: persisted = (result == nil)
+//@   assert @s.executeReapPlan#1: [resume-runs-the-stored-plan] arg0 == p && arg1 == s.reapPlanPath
+//@   assert @s.executeReapPlan#2: [plan-persisted-before-execution] persisted && arg0 == p && p == planV && arg1 == s.reapPlanPath
+//@   loop 1 invariant [building] step == 0 && p == planV && !persisted
+//@   loop 2 invariant [building] step == 0 && p == planV && !persisted
+//@   loop 3 invariant [building] step == 0 && p == planV && !persisted
+//@   loop 4 invariant [building] step == 0 && p == planV && !persisted
+//@   loop 5 invariant [building] (step == 2 || step == 3) && p == planV && !persisted
+//@   loop 6 invariant [building] (step == 2 || step == 3) && p == planV && !persisted
+//
+// executeReapPlan: the plan file is removed only after the whole plan executed without error.
+//@ func (*Store) executeReapPlan
+//@   requires [recv] s != nil && p != nil
+//@   assigns **
+//@   ghost var execOK bool = false
+//@   assert @p.Execute: [executes-the-given-plan] !execOK
+//@   ghost update @p.Execute: execOK = (result == nil)
+//@   assert @os.Remove: [plan-file-removed-only-after-success] execOK && arg0 == planPath
+//@   ensures [nil-means-executed] result2 == nil ==> execOK
+//
+// check (start-up): an interrupted reap is finished — re-executed, or recognised as complete by
+// its last operation — before any leftover temporary directory is removed.
+//@ func (*Store) check
+//@   requires [recv] s != nil
+//@   assigns **
+//@   ghost var planSeen bool = false
+//@   ghost var planHandled bool = false
+//@   ghost var doneV bool = false
+//@   ghost update @fsutil.FileExists: planSeen = result
+//@   ghost update @p.LastOpDone: doneV = (result0 && result1 == nil)
+//@   assert @s.executeReapPlan: [re-execute-only-if-not-done] planSeen && !doneV && arg1 == s.reapPlanPath
+//@   ghost update @s.executeReapPlan: planHandled = (result2 == nil)
+//@   assert @os.Remove#2: [drop-plan-only-if-done] planSeen && doneV && arg0 == s.reapPlanPath
+//@   ghost update @os.Remove#2: planHandled = true
+//@   assert @os.ReadDir: [resume-before-cleanup] !planSeen || planHandled
+//@   assert @os.RemoveAll: [only-temporary-directories] !planSeen || planHandled
+//@   loop 1 invariant [resumed-first] !planSeen || planHandled
+//
+// ---- C08: upgrading the v8 snapshot directory is planned, persisted, then executed --------------------
+// Upgrade8To10: an existing plan file is resumed (the stored plan is executed, the file removed only
+// after success); otherwise the plan is exactly [MkdirAll tmp, MkdirAll tmp/id, WriteMeta, CopyFile,
+// CalcCRC32, Rename tmp -> new, RemoveAll old], written to the plan file before it is executed.
+// Because a resumed plan is executed again FROM ITS FIRST OPERATION, no operation may undo the
+// precondition of a later one once that later one has happened: the source of the Rename must not
+// be re-created by an earlier operation, and a path that an earlier operation reads must not be
+// removed by a later one while the plan file still exists.
+//@ func Upgrade8To10
+//@   requires [args] logger != nil
+//@   assigns **
+//@   ghost var step int = 0
+//@   ghost var planV int = 0
+//@   ghost var persisted bool = false
+//@   ghost var resumedOK bool = false
+//@   ghost var execOK bool = false
+//@   ghost var mk1 string = ""
+//@   ghost var cpSrc string = ""
+//@   ghost var newSeen bool = false
+//@   ghost var newExists bool = false
+//@   ghost update @plan.New: planV = result
+//@   assert @p.AddMkdirAll#1: [shape-1-mkdir-tmp] step == 0 && arg0 == newTmpDir
+//@   ghost update @p.AddMkdirAll#1: mk1 = arg0
+//@   ghost update @p.AddMkdirAll#1: step = 1
+//@   assert @p.AddMkdirAll#2: [shape-2-mkdir-snapshot-dir] step == 1 && arg0 == newSnapshotDir
+//@   ghost update @p.AddMkdirAll#2: step = 2
+//@   assert @p.AddWriteMeta: [shape-3-meta] step == 2 && arg0 == newSnapshotDir && arg1 == metaJSON
+//@   ghost update @p.AddWriteMeta: step = 3
+//@   assert @p.AddCopyFile: [shape-4-copy-db] step == 3 && arg0 == oldDBPath && arg1 == newDBPath
+//@   ghost update @p.AddCopyFile: cpSrc = old
+//@   ghost update @p.AddCopyFile: step = 4
+//@   assert @p.AddCalcCRC32: [shape-5-crc] step == 4 && arg0 == newDBPath
+//@   ghost update @p.AddCalcCRC32: step = 5
+//@   assert @p.AddRename: [shape-6-rename-into-place] step == 5 && arg0 == newTmpDir && arg1 == new
+//@   ghost update @p.AddRename: step = 6
+//@   assert @p.AddRemoveAll: [shape-7-remove-old-last] step == 6 && arg0 == old
+//@   ghost update @p.AddRemoveAll: step = 7
+//@   assert @plan.WriteToFile: [complete-plan-persisted] step == 7 && arg0 == p && p == planV && arg1 == planPath
+//@   ghost update @plan.WriteToFile: persisted = (result == nil)
+// The stored plan is executed again from its first operation, which is safe only while the Rename
+// into place has not happened (before it, every operation just (re)creates things under the tmp
+// directory from the still-present old directory). So the resume branch must first look whether
+// the new directory is already there; if it is, all that can remain is removing the old one.
+//@   ghost update @fsutil.DirExists#1: newSeen = true
+//@   ghost update @fsutil.DirExists#1: newExists = result
+//@   assert @fsutil.DirExists#1: [resume-looks-for-the-renamed-directory] arg0 == new
+//@   assert @p.Execute#1: [resume-replays-only-before-the-rename] !persisted && newSeen && !newExists
+//@   ghost update @p.Execute#1: resumedOK = (result == nil)
+//@   assert @os.Remove#2: [resume-drops-plan-only-after-success] resumedOK && arg0 == planPath
+//@   assert @p.Execute#2: [plan-persisted-before-execution] persisted && step == 7 && p == planV
+//@   ghost update @p.Execute#2: execOK = (result == nil)
+//@   assert @os.Remove#3: [plan-file-removed-only-after-success] execOK && arg0 == planPath
